@@ -550,44 +550,41 @@ impl Array {
         // else if all dimensions match
         // else (broadcast)
         } else {
-            let mut flat_indices = vec![0; arrays.len()];
-            let mut slices: Vec<&[Float]> = arrays
-                .iter()
-                .zip(&group_lengths)
-                .map(|(v, &g)| &v.values[0..g])
-                .collect();
-
             for _ in 0..leading_length {
-                let output_offset = flatten_indices(&indices, &output_dimensions);
+                // slices are right-aligned to the leading dimensions, with unit dimensions broadcast
+                let slices: Vec<&[Float]> = arrays
+                    .iter()
+                    .zip(&group_lengths)
+                    .map(|(v, &g)| {
+                        let count = v.dimensions.len().saturating_sub(op_dimension_count);
+                        let offset = g * indices[leading_count.saturating_sub(count)..leading_count]
+                            .iter()
+                            .zip(&v.dimensions)
+                            .fold(0, |acc, (i, d)| acc * d + if *d == 1 { 0 } else { *i });
+                        &v.values[offset..offset + g]
+                    })
+                    .collect();
+
+                let output_offset = output_group_length
+                    * indices
+                        .iter()
+                        .zip(output_dimensions)
+                        .take(leading_count)
+                        .fold(0, |acc, (i, d)| acc * d + if *d == 1 { 0 } else { *i });
                 let output_slice =
                     &mut output_values[output_offset..output_offset + output_group_length];
 
                 op(output_slice, &slices);
 
-                for (i, (x, d)) in indices
+                for (x, d) in indices
                     .iter_mut()
                     .zip(input_dimensions)
-                    .enumerate()
                     .rev()
                     .skip(op_dimension_count)
                 {
                     if *x == *d - 1 {
                         *x = 0;
                     } else {
-                        for (((index, slice), array), group_length) in flat_indices
-                            .iter_mut()
-                            .zip(slices.iter_mut())
-                            .zip(&arrays)
-                            .zip(&group_lengths)
-                        {
-                            if i < array.dimensions.len().saturating_sub(op_dimension_count)
-                                && array.dimensions[i] != 1
-                            {
-                                *index += group_length;
-                                *slice = &array.values[*index..*index + group_length];
-                            }
-                        }
-
                         *x += 1;
                         break;
                     }
